@@ -1721,3 +1721,129 @@ func (c *Ctx) r1011() {
 		c.R.Floor(rule, "cursor-indexed reads in package "+rel, n, 2)
 	}
 }
+
+// R10.12: recursion that follows the nesting of the input has a depth bound.
+func (c *Ctx) r1012() {
+	const rule = "R10.12"
+	c.R.Rule(rule, "a function of the css, html, svg, xml, json and root packages that calls itself descends one level of something per call; if that something is nesting of the input, a crafted input (`a{b:f(f(f(…` two million deep) overflows the stack, which Go cannot recover from. Each directly recursive function is either (a) depth-guarded: its recursive calls are dominated by, or its entry starts with, a comparison of a depth counter with a constant — the counter being a parameter that the recursive call passes on plus a positive constant, or a receiver field that the function increments — or (b) listed here with the reason why its depth is bounded by something else (it descends a tree that a guarded function built; its self-calls have constant depth). (Package js recurses over the syntax tree, whose depth the parser limits: NestedStmtLimit / NestedExprLimit.)")
+	bounded := map[string]string{
+		"css.Token.Equal":                 "descends Token.Args, a tree built by the depth-guarded parseFunction",
+		"css.Token.String":                "descends Token.Args, a tree built by the depth-guarded parseFunction",
+		"css.cssMinifier.writeFunction":   "descends Token.Args, a tree built by the depth-guarded parseFunction",
+		"css.cssMinifier.minifyProperty":  "calls itself for a sub-property (Background_Position, Font_Family …) whose case does not recurse: depth 2",
+		"html.Minifier.Minify":            "re-enters for the content of a downlevel-hidden conditional comment, which cannot contain another comment end: depth 2",
+	}
+	n, guarded := 0, 0
+	for _, rel := range []string{"", "css", "html", "svg", "xml", "json"} {
+		pk := c.P.Pkg(rel)
+		if pk == nil {
+			continue
+		}
+		info := pk.TypesInfo
+		for _, fd := range load.FuncDecls(pk) {
+			if fd.Body == nil {
+				continue
+			}
+			self := info.Defs[fd.Name]
+			var calls []*ast.CallExpr
+			ast.Inspect(fd.Body, func(x ast.Node) bool {
+				if ce, ok := x.(*ast.CallExpr); ok && callee(info, ce) == self && self != nil {
+					calls = append(calls, ce)
+				}
+				return true
+			})
+			if len(calls) == 0 {
+				continue
+			}
+			n++
+			name := pk.Name + "." + load.FuncName(fd)
+			construct := name + "/recursion depth bounded"
+			if why, ok := bounded[name]; ok {
+				c.R.OK(rule, construct, c.pos(fd), "listed: "+why)
+				continue
+			}
+			g := c.graph(pk, fd)
+			// depth counters: int parameters passed on as p+k, receiver fields incremented in the function
+			params := map[types.Object]int{}
+			if fd.Type.Params != nil {
+				idx := 0
+				for _, f := range fd.Type.Params.List {
+					for _, nm := range f.Names {
+						params[info.Defs[nm]] = idx
+						idx++
+					}
+				}
+			}
+			counter := map[string]bool{}
+			for _, ce := range calls {
+				for i, a := range ce.Args {
+					be, ok := ast.Unparen(a).(*ast.BinaryExpr)
+					if !ok || be.Op != token.ADD {
+						continue
+					}
+					id, ok := ast.Unparen(be.X).(*ast.Ident)
+					if !ok {
+						continue
+					}
+					if k, isK := intConst(info, be.Y); isK && k > 0 {
+						if pi, isP := params[info.Uses[id]]; isP && pi == i {
+							counter[id.Name] = true
+						}
+					}
+				}
+			}
+			ast.Inspect(fd.Body, func(x ast.Node) bool {
+				if inc, ok := x.(*ast.IncDecStmt); ok && inc.Tok == token.INC {
+					if _, isSel := inc.X.(*ast.SelectorExpr); isSel {
+						counter[nospace(str(inc.X))] = true
+					}
+				}
+				return true
+			})
+			isGuard := func(e ast.Expr) bool {
+				be, ok := ast.Unparen(e).(*ast.BinaryExpr)
+				if !ok {
+					return false
+				}
+				switch be.Op {
+				case token.LSS, token.LEQ, token.GTR, token.GEQ:
+				default:
+					return false
+				}
+				for _, pr := range [][2]ast.Expr{{be.X, be.Y}, {be.Y, be.X}} {
+					if _, isK := intConst(info, pr[0]); !isK {
+						continue
+					}
+					s := nospace(str(pr[1]))
+					for cn := range counter {
+						if s == cn || strings.HasPrefix(s, cn+"+") || strings.HasPrefix(s, cn+"-") {
+							return true
+						}
+					}
+				}
+				return false
+			}
+			ok := true
+			for _, ce := range calls {
+				y := g.NodeOf(ce)
+				if y == nil {
+					ok = false
+					continue
+				}
+				// every path from the entry to the recursive call passes an outcome of a guard comparison
+				p := g.Path(flow.Search{From: []*flow.Node{g.Entry}, IncludeFrom: true, Goal: func(q *flow.Node) bool { return q == y }, Avoid: func(q *flow.Node) bool {
+					return (q.Kind == flow.KTrue || q.Kind == flow.KFalse) && q.Of != nil && q.Of.Kind == flow.KCond && isGuard(q.Of.Expr)
+				}})
+				if p != nil {
+					ok = false
+				}
+			}
+			if ok {
+				guarded++
+			}
+			c.R.Check(ok, rule, construct, c.pos(fd), "a depth counter is compared with a constant on every path to the recursive call", name+" calls itself for the next level of nesting without a bound on the depth: an input nested deeply enough (`a{b:f(f(f(…` some millions deep) exhausts the stack, a fatal error no caller can recover from")
+		}
+	}
+	c.R.Floor(rule, "directly recursive functions", n, 6)
+	c.R.Floor(rule, "depth-guarded recursive functions", guarded, 2)
+}
